@@ -28,7 +28,7 @@ Clr == op' = << >>
 
 TNew      == IsEv("tknew") /\ s' = NewTask(E.size, E.used, E.off, E.tr, Zeros(E.size)) /\ Clr /\ aux' = NoAux
 TFill     == IsEv("tkfill") /\ s.pc = "none" /\ s' = [s EXCEPT !.mem = Tup(E.mem)] /\ KeepOp /\ UNCHANGED aux
-TCreate   == IsEv("tkcreate") /\ E.rc = 0 /\ aux' = [aux EXCEPT !.typ = IF E.h = 0 THEN "sr" ELSE IF E.h = 1 THEN "rw" ELSE "notify"]
+TCreate   == IsEv("tkcreate") /\ E.rc = 0 /\ aux' = [aux EXCEPT !.typ = CASE E.h = 0 -> "sr" [] E.h = 1 -> "rw" [] E.h = 2 -> "notify" [] E.h = 3 -> "pkt" [] E.h = 4 -> "acc" [] OTHER -> "conn"]
              /\ UNCHANGED s /\ KeepOp
 TCallStart == IsEv("call.start") /\ s.pc \in {"none", "idle"} /\ op = << >> /\ aux.api = ""
               /\ s' = ApiStart(s, E.direct = 1, aux.typ, (E.tflags \div 2) % 2 = 1, E.ev, E.efl, E.tmo, E.foff)
@@ -63,8 +63,8 @@ TLoopCb   == IsEv("loop.cb") /\ s.pc = "idle" /\ op = << >> /\ aux.api = "" /\ U
 TIo       == IsEv("sys.io") /\ UNCHANGED aux /\ Clr
              /\ LET s1 == IF s.pc = "pre" THEN PreEnd(s, op) ELSE s IN
                   /\ (s.pc # "pre" => op = << >>)
-                  /\ s1.pc = "xfer" /\ XferEnv(s1, E)
-                  /\ s' = Xfer(s1, [E EXCEPT !.ids = Tup(E.ids)])
+                  /\ IF s1.pc = "xferL" THEN XferLEnv(s1, [E EXCEPT !.ids = Tup(E.ids)]) /\ s' = XferL(s1, [E EXCEPT !.ids = Tup(E.ids)])
+                     ELSE s1.pc = "xfer" /\ XferEnv(s1, E) /\ s' = Xfer(s1, [E EXCEPT !.ids = Tup(E.ids)])
 TCbBegin  == IsEv("taskcb.begin") /\ UNCHANGED aux /\ Clr
              /\ LET s1 == IF s.pc = "pre" THEN PreEnd(s, op) ELSE s IN
                   /\ (s.pc # "pre" => op = << >>)
@@ -78,7 +78,12 @@ TCbEnd    == IsEv("taskcb.end") /\ s.pc \in {"cb", "dead"} /\ op = << >> /\ aux.
 TLoopTurn == IsEv("loop.turn") /\ UNCHANGED aux
              /\ IF s.pc = "post" /\ aux.api = "" THEN s' = PostEnd(s, op) /\ Clr ELSE UNCHANGED <<s, op>>
 
-TPeerW    == IsEv("peer.write") /\ s' = PeerWrite(s, Tup(E.ids)) /\ KeepOp /\ UNCHANGED aux
+TPeerW    == IsEv("peer.write") /\ KeepOp /\ UNCHANGED aux
+             /\ s' = IF aux.typ = "pkt" \/ s.cfg.typ = "pkt" THEN PeerItems(s, <<Tup(E.ids)>>, Tup(E.ids)) ELSE PeerWrite(s, Tup(E.ids))
+TPeerConn == IsEv("peer.conn") /\ KeepOp /\ UNCHANGED aux
+             /\ s' = PeerItems(s, [i \in 1..Len(E.ids) |-> <<E.ids[i]>>], Tup(E.ids))
+TConnect  == IsEv("connect") /\ E.rc = 0 /\ KeepOp /\ UNCHANGED aux                 \* skt_connect(): a closed port answers with a reset
+             /\ s' = IF E.mode = 1 THEN PeerClose(s, TRUE) ELSE s
 TPeerC    == IsEv("peer.close") /\ s' = PeerClose(s, E.how = "reset") /\ KeepOp /\ UNCHANGED aux
 TPeerR    == IsEv("peer.read") /\ KeepOp
              /\ aux' = [aux EXCEPT !.rd = @ \o Tup(E.ids)]
@@ -92,7 +97,7 @@ TReset    == IsEv("Reset") /\ s' = NewTask(0, 0, 0, 0, << >>) /\ Clr /\ aux' = N
 Report == \A n \in s'.notes \ s.notes : PrintT(ToJson([note |-> n, line |-> l]))
 TNext == /\ \/ TNew \/ TFill \/ TCreate \/ TCallStart \/ TRetStart \/ TCallRestart \/ TRetRestart \/ TCallApi \/ TRetStop
             \/ TRetEnable \/ TRetDestroy \/ TPost \/ TSettime \/ TFail \/ TLoopCb \/ TIo \/ TCbBegin \/ TRewind \/ TCbRead \/ TCbEnd
-            \/ TLoopTurn \/ TPeerW \/ TPeerC \/ TPeerR \/ TWaited \/ TQuiesce \/ TCount \/ TReset
+            \/ TLoopTurn \/ TPeerW \/ TPeerConn \/ TConnect \/ TPeerC \/ TPeerR \/ TWaited \/ TQuiesce \/ TCount \/ TReset
          /\ Report
 TSpec == TInit /\ [][TNext]_tvars
 
